@@ -168,6 +168,7 @@ type node struct {
 	payload int
 	large   bool
 	cont    bool
+	body    []byte // explicit leaf payload (C03: trun / senc leaves)
 }
 
 var contNames = []string{"moov", "moof", "traf", "mfra", "udta", "dinf"}
@@ -199,6 +200,9 @@ func encodeNode(n *node, base int, sizeOffs *[]int) []byte {
 		body = make([]byte, n.payload)
 		for i := range body {
 			body[i] = byte(0xa0 + i)
+		}
+		if n.body != nil {
+			body = n.body
 		}
 	}
 	*sizeOffs = append(*sizeOffs, base)
